@@ -46,7 +46,7 @@ class C18(BtProp):
         n = {"quick": self.quick_n, "thorough": self.thorough_n, "search": 3000}[tier]
         out = []
         for i in range(n):
-            kind = rng.choice(["pickup", "pickup", "oneshot", "oneshotdec", "eitheror", "eitheror"])
+            kind = rng.choice(["pickup", "pickup", "oneshot", "oneshotdec", "eitheror", "eitheror", "eitheror2"])
             ops = []
             now = 0
             nops = rng.randint(3, 14 if tier != "thorough" else 30)
@@ -68,6 +68,14 @@ class C18(BtProp):
                 header = "tree " + spec_str(("S", 1, False, [("D", 2, "oneshot:" + rng.choice("01"), sub),
                                                                ("L", 50, ["probe"])]))
                 root = rng.choice([1, 2])
+            elif kind == "eitheror2":
+                k = 2
+                conds = " ".join("/c%d - eq i:1" % j for j in range(k))
+                subs = " ".join(spec_str(small_subtree(rng, 100 + 10 * j)) for j in range(2 * k))
+                header = "idiom eitheror2 %d %s %s" % (k, conds, subs)
+                root = 1
+                for j in range(k):
+                    ops.append("setbb /c%d i:%d" % (j, rng.choice([0, 1])))
             else:
                 k = rng.choice([2, 2, 3, 4])
                 conds = " ".join("/c%d - eq i:1" % j for j in range(k))
@@ -81,7 +89,7 @@ class C18(BtProp):
                 r = rng.random()
                 if r < 0.2 and ops:
                     ops.append("stop %d" % root)
-                elif r < 0.4 and kind == "eitheror":
+                elif r < 0.4 and kind in ("eitheror", "eitheror2"):
                     ops.append("setbb /c%d i:%d" % (rng.randrange(k), rng.choice([0, 1])))
                 else:
                     now += 1
